@@ -49,8 +49,8 @@ def main():
             name = os.path.basename(p)[:-6]
             res[name] = run_one(prop, p, a.jobs)
             print(prop, name, res[name]["verdict"], res[name].get("first_clause"), flush=True)
-        json.dump({"property": prop, "repo_head": repo_head, "verif_head": verif_head, "results": res},
-                  open(os.path.join(a.out, prop + ".json"), "w"), indent=1)
+            json.dump({"property": prop, "repo_head": repo_head, "verif_head": verif_head, "results": res},
+                      open(os.path.join(a.out, prop + ".json"), "w"), indent=1)
 
 
 if __name__ == "__main__":
